@@ -8,7 +8,7 @@ adjusted without renumbering):
 * `lim <rateMilli> <burst> <mono>`   new limiter (`mono` = 1: the gaps that follow are ≥ 0)
 * `at <gap_ns>`                        `AllowN(t, 1)` at t := t + gap
 * `seq <id>`                           new TOTP sequence: all users fresh, clock at the base time
-* `att <user> <gap_s> <counter> <good|bad|dis>`    direct `validateUserTOTP`
+* `att <user> <gap_s> <counter> <good|prev|next|bad|dis>`    direct `validateUserTOTP`
 * `hatt <user> <gap_s> <verify|auth> <good|bad|dis>`  through verifyTOTPHandler / TOTPAuthHandler
 
 Modes: `plan` (moves ops off exact thresholds the real clock / float64 cannot reproduce and fills in
@@ -26,6 +26,7 @@ structure St where
   now : Int := 0
   users : String → Totp := fun _ => Totp.init
   mons : String → Mon := fun _ => Mon.init
+  acc : String → Option Int := fun _ => none   -- judge: step of the user's last accepted code
 
 /-- base of the synthetic limiter clock (ns) and of the virtual TOTP clock -/
 def bucketBase : Int := 1000000000 * sec
@@ -33,15 +34,22 @@ def totpBase : Int := 1000000000 * sec
 /-- period counter used for calls through the HTTP handlers (they pass the real `time.Now()`) -/
 def handlerCounter : Int := 1999999999
 
-def parseCode (s : String) : Option Bool :=
-  if s == "good" then some true else if s == "bad" || s == "dis" then some false else none
+/-- what `totpMatchedCounter` returns for the submitted code: `good`/`prev`/`next` are the enabled
+device's codes of step `counter`, `counter-1`, `counter+1`; `bad` fits nothing, `dis` only a disabled
+device -/
+def parseCode (s : String) : Option (Option Int) :=
+  if s == "good" then some (some 0) else if s == "prev" then some (some (-1))
+  else if s == "next" then some (some 1)
+  else if s == "bad" || s == "dis" then some none else none
+
+def matchedAt (off : Option Int) (ctr : Int) : Option Int := off.map (ctr + ·)
 
 def newLim (st : St) (r b : Nat) (mono : Bool) : St :=
   { st with p := ⟨r, b⟩, b := Bucket.new ⟨r, b⟩ goZeroTime, t := bucketBase, mono := mono,
             first := none, cnt := 0 }
 
 def newSeq (st : St) : St :=
-  { st with now := totpBase, users := fun _ => Totp.init, mons := fun _ => Mon.init }
+  { st with now := totpBase, users := fun _ => Totp.init, mons := fun _ => Mon.init, acc := fun _ => none }
 
 def roundSecs (d : Int) : Int := (d + sec / 2) / sec
 
@@ -91,8 +99,8 @@ def modelStep (st : St) : List String → St × String
     | some g, some ctr, some _ =>
       if g < 0 then (st, "bad-op") else
       let now := st.now + g * sec
-      let r := step (st.users u) ⟨now, ctr, true⟩
-      let r2 := step r.1 ⟨now, ctr, true⟩
+      let r := step (st.users u) ⟨now, ctr, some ctr⟩
+      let r2 := step r.1 ⟨now, ctr, some ctr⟩
       ({ st with now := now, users := upd st.users u r2.1 }, totpLine r2.1 now r.2 ++ " " ++ outcomeStr r.2)
     | _, _, _ => (st, "bad-op")
   | [kind, u, g, c, code] =>
@@ -103,7 +111,7 @@ def modelStep (st : St) : List String → St × String
     | some g, some ctr, some ok =>
       if g < 0 then (st, "bad-op") else
       let now := st.now + g * sec
-      let r := step (st.users u) ⟨now, ctr, ok⟩
+      let r := step (st.users u) ⟨now, ctr, matchedAt ok ctr⟩
       ({ st with now := now, users := upd st.users u r.1 }, totpLine r.1 now r.2 ++ " " ++ outcomeStr r.2)
     | _, _, _ => (st, "bad-op")
   | _ => (st, "bad-op")
@@ -142,8 +150,8 @@ def planStep (st : St) : List String → St × String
         if c == "auto" then some (now / sec / (KM.Gen.C14.totpPeriod : Int)) else c.toInt?
       match ctr with
       | some ctr =>
-        let r := step s ⟨now, ctr, true⟩
-        let r2 := step r.1 ⟨now, ctr, true⟩
+        let r := step s ⟨now, ctr, some ctr⟩
+        let r2 := step r.1 ⟨now, ctr, some ctr⟩
         ({ st with now := now, users := upd st.users u r2.1 }, s!"catt {u} {(now - st.now) / sec} {ctr} {n}")
       | none => (st, "bad-op")
     | none => (st, "bad-op")
@@ -162,7 +170,7 @@ def planStep (st : St) : List String → St × String
         else c.toInt?
       match ctr with
       | some ctr =>
-        let r := step s ⟨now, ctr, ok⟩
+        let r := step s ⟨now, ctr, matchedAt ok ctr⟩
         let cs := if kind == "hatt" then c else toString ctr
         ({ st with now := now, users := upd st.users u r.1 },
          s!"{kind} {u} {(now - st.now) / sec} {cs} {code}")
@@ -206,8 +214,9 @@ def judgeStep (st : St) : List String → St × String
       else (st, "ok")
     | _, _, _, _, _, _, _ => (st, "bad-op")
   | ["seq", _] => (newSeq st, "ok")
-  -- `ev <user> <gap_s> <returned true> <failure recorded>`
-  | ["ev", u, g, ret, frec] =>
+  -- `ev <user> <gap_s> <returned true> <failure recorded> <step of the submitted code | ->`:
+  -- the monitor of c14_lockout/c14_spacing, and c14_one_time's "accepted steps strictly increase"
+  | ["ev", u, g, ret, frec, stp] =>
     match g.toInt?, parseBool ret, parseBool frec with
     | some g, some ret, some frec =>
       if g < 0 then (st, "bad-op") else
@@ -215,7 +224,15 @@ def judgeStep (st : St) : List String → St × String
       let out : Outcome := if ret then .accepted else if frec then .rejected else .spaced
       let m := st.mons u
       let r := monStep m now out
-      ({ st with now := now, mons := upd st.mons u r.1 }, verdictStr m now r.2)
+      let reused : Bool := match stp.toInt?, st.acc u with
+        | some k, some l => ret && decide (k ≤ l)
+        | _, _ => false
+      let acc' := match stp.toInt? with
+        | some k => if ret then upd st.acc u (some k) else st.acc
+        | none => st.acc
+      let st' := { st with now := now, mons := upd st.mons u r.1, acc := acc' }
+      if reused then (st', s!"viol stepReused step={stp} last_accepted_step={(st.acc u).getD 0}")
+      else (st', verdictStr m now r.2)
     | _, _, _ => (st, "bad-op")
   | _ => (st, "bad-op")
 
